@@ -152,6 +152,35 @@ pub fn compile_repeat(case: &Value) -> Value {
     json!({"distinct": outcomes.len(), "outcomes": digests})
 }
 
+/// `{src, consts?, texts: [literal text per parameter]}` → for each parameter the bits `parse_arg` gives for its text,
+/// or the error: the literal API of a program compiled with constants
+pub fn parse_args(case: &Value) -> Value {
+    let src = case["src"].as_str().unwrap_or("");
+    let consts = consts_of(&case["consts"]);
+    let r = guarded(|| {
+        garble_lang::compile_with_options(
+            src,
+            CompileOptions { circuit_kind: CircuitKind::Ssa, consts: consts.clone(), optimize_duplicate_gates: true },
+        )
+    });
+    match r {
+        Err(p) => json!({"ok": false, "stage": "panic", "detail": p}),
+        Ok(Err(e)) => json!({"ok": false, "stage": err_stage(&e).0}),
+        Ok(Ok(prg)) => {
+            let mut out = vec![];
+            for (i, t) in case["texts"].as_array().cloned().unwrap_or_default().iter().enumerate() {
+                let text = t.as_str().unwrap_or("");
+                out.push(match guarded(|| prg.parse_arg(i, text).map(|a| bits_to_string(&a.as_bits()))) {
+                    Ok(Ok(bits)) => json!({"bits": bits}),
+                    Ok(Err(_)) => json!({"err": "rejected"}),
+                    Err(p) => json!({"err": format!("panic@{p}")}),
+                });
+            }
+            json!({"ok": true, "args": out})
+        }
+    }
+}
+
 fn fxhash(s: &str) -> u64 {
     let mut h: u64 = 0xcbf29ce484222325;
     for b in s.bytes() {
